@@ -10,6 +10,7 @@ struct RObj { uint8_t sub; uint8_t width; };
 struct RpdoModel { bool exists = false, valid = true; uint8_t type = 254; uint32_t id = 0; std::vector<RMap> map; uint32_t mapped = 0; int hasNew = 0; /* 0 no, 1 yes, 2 unknown */ uint8_t buf[8]; bool sync() const { return type <= 240; } };
 
 struct RpdoRun : NodeEnv {
+    bool lowIdx = false;
     int m = M_PREOP; std::vector<RpdoModel> R; std::vector<RObj> objs; std::map<uint8_t, uint32_t> val;
     RpdoRun(const Plan &p, Cov &c, bool vb) : NodeEnv(p, c, vb) {}
     void build() {
@@ -17,6 +18,8 @@ struct RpdoRun : NodeEnv {
         add_mandatory(specs, 1);
         add_typed(specs, T_SYNCID, 0x1005, 0, CO_OBJ_____RW, 0x80); add_typed(specs, T_SYNCCYCLE, 0x1006, 0, CO_OBJ_____RW, 0);
         add_u8(specs, 0x2100, 0, CO_OBJ_D___R_, 12);
+        // CiA 301 allows a dictionary to publish the static data type entries 0002h..0007h; a dummy mapping still only skips its bytes
+        lowIdx = plan.c("lowidx", 0) != 0; if (lowIdx) { add_u32(specs, 0x0005, 0, CO_OBJ_____R_, 8); add_u32(specs, 0x0006, 0, CO_OBJ_____R_, 16); add_u32(specs, 0x0007, 0, CO_OBJ_____R_, 32); cov.hit("dictionary-publishes-data-type-entries"); }
         int no = 0;
         for (auto &o : plan.ops) if (o.k == "obj" && no < 12) { no++; RObj d{(uint8_t)no, (uint8_t)(o.arg(0) == 1 ? 1 : o.arg(0) == 2 ? 2 : 4)}; objs.push_back(d); uint32_t init = (uint32_t)o.arg(2) & (d.width == 4 ? 0xFFFFFFFFu : ((1u << (8 * d.width)) - 1));
             add_typed(specs, d.width == 1 ? T_U8 : d.width == 2 ? T_U16 : T_U32, 0x2100, d.sub, (uint8_t)(CO_OBJ____PRW | (o.arg(1) ? CO_OBJ_D_____ : 0)), init); val[d.sub] = init; }
@@ -76,6 +79,7 @@ struct RpdoRun : NodeEnv {
         }
         safety(); if (!v.ok) return;
         // dictionary image after the operation
+        if (lowIdx && (w.raw(0, 0x0005, 0) != 8 || w.raw(0, 0x0006, 0) != 16 || w.raw(0, 0x0007, 0) != 32)) { fail("rpdo/dummy-wrote-object", "a data type entry (0005h..0007h) of the dictionary was overwritten during " + k); return; }
         std::string why; bool ok = imageOk(why);
         if (!ok && !alts.empty()) { for (auto &a : alts) { std::map<uint8_t, uint32_t> keep = val; val = a; std::string w2; if (imageOk(w2)) { ok = true; break; } val = keep; } }
         if (!ok) {
@@ -100,7 +104,7 @@ struct RpdoRun : NodeEnv {
 };
 
 Plan gen_rpdo(Rng &r, bool thorough) {
-    Plan p; int nobj = (int)r.range(1, 10);
+    Plan p; int nobj = (int)r.range(1, 10); p.cfg["lowidx"] = r.chance(1, 4);
     for (int i = 0; i < nobj; i++) p.ops.push_back(Op("obj", {r.pick<int64_t>({1, 1, 2, 2, 4, 4}), (int64_t)r.below(2), (int64_t)r.below(0x10000) * 65537}));
     for (int n = 0; n < 4; n++) if (r.chance(2, 3)) { Op c("rpdocfg", {n, (int64_t)r.chance(5, 6), r.chance(1, 2) ? r.pick<int64_t>({1, 1, 2, 240}) : r.pick<int64_t>({254, 255})}); int nm = (int)r.range(1, 8); for (int j = 0; j < nm; j++) { c.b.push_back(r.chance(1, 4) ? 200 : (uint8_t)r.below((uint32_t)nobj)); c.b.push_back(r.byte()); } p.ops.push_back(c); }
     if (r.chance(9, 10)) p.ops.push_back(Op("nmt", {1}));
